@@ -43,6 +43,42 @@ type OracleOut struct {
 	AggViol   []probe.Viol    `json:"aggviol"`
 	AggPermOK bool            `json:"aggperm_ok"`
 	AggPermN  int             `json:"aggperm_n"`
+	AggRules  []AggRuleCov    `json:"agg_rules"` // H_aggperm rule by rule (round 3)
+	AggDiff   *AggOrderDiff   `json:"agg_diff,omitempty"`
+}
+
+// AggRuleCov: what the H_aggperm test of this workspace amounts to for one rule defining aggregate_report
+type AggRuleCov struct {
+	Rule       string `json:"rule"`
+	Entries    int    `json:"entries"`    // entries of input.aggregate for the rule
+	Files      int    `json:"files"`      // distinct files that contributed them
+	Violations int    `json:"violations"` // aggregate violations of the rule (first order)
+	Orders     int    `json:"orders"`     // distinct orders of its entries the aggregate phase was evaluated on
+	Dependent  bool   `json:"dependent"`  // some order gave other violations
+}
+
+// AggOrderDiff: the first pair of orders of input.aggregate on which the aggregate phase disagreed
+type AggOrderDiff struct {
+	Rules  []string            `json:"rules"`
+	OrderA map[string][]string `json:"order_a"` // rule -> source files of its entries, in order
+	OrderB map[string][]string `json:"order_b"`
+	OnlyA  []probe.Viol        `json:"only_a"`
+	OnlyB  []probe.Viol        `json:"only_b"`
+}
+
+func aggRuleOfKey(k string) string {
+	if i := strings.Index(k, "@"); i >= 0 {
+		return k[:i]
+	}
+	return k
+}
+
+func sourceFiles(l []report.Aggregate, rel probe.Rel) []string {
+	out := []string{}
+	for _, a := range l {
+		out = append(out, rel(a.SourceFile()))
+	}
+	return out
 }
 
 type InputCase struct {
@@ -66,6 +102,10 @@ type WsOut struct {
 	Errors   []string        `json:"errors"`
 	Inputs   []InputCase     `json:"inputs"`
 	Seconds  float64         `json:"seconds"` // wall time spent on this workspace (evidence only)
+	// versioned workspaces: the Rego version selected for every file over many calls, and the keys of the versions map
+	Lookups     []VersionLookup `json:"lookups,omitempty"`
+	VersionKeys []string        `json:"version_keys,omitempty"`
+	AggRuleList []string        `json:"agg_rule_list,omitempty"` // rules of the bundle under test defining aggregate_report
 }
 
 func perms(xs []string) [][]string {
@@ -124,7 +164,11 @@ func runWorkspace(ctx context.Context, rng *hutil.Rng, ws probe.Workspace, procs
 	if err := ws.Write(root); err != nil {
 		panic(err)
 	}
-	rel := func(s string) string { return strings.TrimPrefix(s, root+"/") }
+	absRoot, err := filepath.Abs(root)
+	if err != nil {
+		panic(err)
+	}
+	rel := func(s string) string { return strings.TrimPrefix(strings.TrimPrefix(s, absRoot+"/"), root+"/") }
 	names := []string{}
 	for _, f := range ws.Files {
 		names = append(names, filepath.Join(root, f.Name))
@@ -138,7 +182,23 @@ func runWorkspace(ctx context.Context, rng *hutil.Rng, ws probe.Workspace, procs
 	out.N = n
 
 	// ---- rule oracle -----------------------------------------------------------------------
+	// (not for workspaces with Rego versions per directory: the oracle parses every file on its own, without a map)
+	if ws.Versioned() {
+		withOracle = false
+		if procs >= 16 {
+			calls := 64
+			if tier != "quick" {
+				calls = 256
+			}
+			lk, keys, err := versionLookups(ws, root, names, calls)
+			if err != nil {
+				out.Errors = append(out.Errors, "version lookups: "+err.Error())
+			}
+			out.Lookups, out.VersionKeys = lk, keys
+		}
+	}
 	if withOracle {
+		out.AggRuleList = aggReportRules()
 		o, err := probe.NewOracle(ctx, ws)
 		if err != nil {
 			panic(err)
@@ -183,6 +243,42 @@ func runWorkspace(ctx context.Context, rng *hutil.Rng, ws probe.Workspace, procs
 			if tier != "quick" {
 				nsh = 5
 			}
+			if ws.Family == "aggtrig" {
+				nsh = 4 * nsh // the trigger workspaces: reverse, sorted by file both ways, rotated, shuffles
+			}
+			// rule by rule: the rules of the bundle that define aggregate_report + whatever else has entries (custom rules)
+			ruleSet := map[string]bool{}
+			for _, r := range out.AggRuleList {
+				ruleSet[r] = true
+			}
+			for k := range merged {
+				ruleSet[k] = true
+			}
+			cov := map[string]*AggRuleCov{}
+			ordersSeen := map[string]map[string]bool{}
+			for r := range ruleSet {
+				fs := map[string]bool{}
+				for _, f := range sourceFiles(merged[r], rel) {
+					fs[f] = true
+				}
+				cov[r] = &AggRuleCov{Rule: r, Entries: len(merged[r]), Files: len(fs)}
+				ordersSeen[r] = map[string]bool{strings.Join(sourceFiles(merged[r], rel), ",") + fmt.Sprint(len(merged[r])): true}
+			}
+			byRule := func(vs []probe.Viol) map[string][]probe.Viol {
+				m := map[string][]probe.Viol{}
+				for _, v := range vs {
+					m[aggRuleOfKey(v.Key)] = append(m[aggRuleOfKey(v.Key)], v)
+				}
+				return m
+			}
+			wantBy := byRule(av)
+			for r, vs := range wantBy {
+				if cov[r] == nil {
+					cov[r] = &AggRuleCov{Rule: r}
+					ordersSeen[r] = map[string]bool{}
+				}
+				cov[r].Violations = len(vs)
+			}
 			for s := 0; s < nsh; s++ {
 				sh := map[string][]report.Aggregate{}
 				for k, l := range merged {
@@ -191,14 +287,24 @@ func runWorkspace(ctx context.Context, rng *hutil.Rng, ws probe.Workspace, procs
 						continue
 					}
 					c := append([]report.Aggregate{}, l...)
-					if s == 0 {
+					switch s {
+					case 0:
 						for i, j := 0, len(c)-1; i < j; i, j = i+1, j-1 {
 							c[i], c[j] = c[j], c[i]
 						}
-					} else {
+					case 2:
+						sort.SliceStable(c, func(i, j int) bool { return c[i].SourceFile() < c[j].SourceFile() })
+					case 3:
+						sort.SliceStable(c, func(i, j int) bool { return c[i].SourceFile() > c[j].SourceFile() })
+					case 4:
+						c = append(c[1:], c[0])
+					default:
 						hutil.Shuffle(rng, c)
 					}
 					sh[k] = c
+					if ordersSeen[k] != nil {
+						ordersSeen[k][strings.Join(sourceFiles(c, rel), ",")+fmt.Sprint(len(c))] = true
+					}
 				}
 				av2, err := o.EvalAggregate(ctx, sh, dirs, rel)
 				if err != nil {
@@ -208,7 +314,55 @@ func runWorkspace(ctx context.Context, rng *hutil.Rng, ws probe.Workspace, procs
 				oo.AggPermN++
 				if string(got) != string(want) {
 					oo.AggPermOK = false
+					gotBy := byRule(av2)
+					diff := &AggOrderDiff{OrderA: map[string][]string{}, OrderB: map[string][]string{}, OnlyA: []probe.Viol{}, OnlyB: []probe.Viol{}}
+					for r := range cov {
+						a, _ := json.Marshal(wantBy[r])
+						b, _ := json.Marshal(gotBy[r])
+						if string(a) == string(b) {
+							continue
+						}
+						cov[r].Dependent = true
+						diff.Rules = append(diff.Rules, r)
+						diff.OrderA[r] = sourceFiles(merged[r], rel)
+						diff.OrderB[r] = sourceFiles(sh[r], rel)
+						inB := map[string]int{}
+						for _, v := range gotBy[r] {
+							inB[v.File+"|"+v.Key]++
+						}
+						for _, v := range wantBy[r] {
+							if inB[v.File+"|"+v.Key] > 0 {
+								inB[v.File+"|"+v.Key]--
+							} else {
+								diff.OnlyA = append(diff.OnlyA, v)
+							}
+						}
+						inA := map[string]int{}
+						for _, v := range wantBy[r] {
+							inA[v.File+"|"+v.Key]++
+						}
+						for _, v := range gotBy[r] {
+							if inA[v.File+"|"+v.Key] > 0 {
+								inA[v.File+"|"+v.Key]--
+							} else {
+								diff.OnlyB = append(diff.OnlyB, v)
+							}
+						}
+					}
+					sort.Strings(diff.Rules)
+					if oo.AggDiff == nil {
+						oo.AggDiff = diff
+					}
 				}
+			}
+			rs := make([]string, 0, len(cov))
+			for r := range cov {
+				rs = append(rs, r)
+			}
+			sort.Strings(rs)
+			for _, r := range rs {
+				cov[r].Orders = len(ordersSeen[r])
+				oo.AggRules = append(oo.AggRules, *cov[r])
 			}
 		}
 		out.Oracle = oo
@@ -282,9 +436,16 @@ func runWorkspace(ctx context.Context, rng *hutil.Rng, ws probe.Workspace, procs
 		reps = 2
 	}
 	// argument lists are about the order of the arguments: the slow processes run each order they sampled once
-	light := len(ws.Args) > 0 && !full && procs < 16 && tier == "quick"
+	light := len(ws.Args) > 0 && !full && procs < 16 && tier == "quick" && ws.Repeat == 0
 	if light {
 		reps = 1
+	}
+	if ws.Repeat > reps {
+		// identical calls, one after (and beside) the other in this process
+		reps = ws.Repeat
+		if procs == 1 && tier == "quick" && !full {
+			reps = (ws.Repeat + 1) / 2
+		}
 	}
 	var jobs []job
 	for v := range variants {
@@ -318,7 +479,7 @@ func runWorkspace(ctx context.Context, rng *hutil.Rng, ws probe.Workspace, procs
 	orderIdx := map[string]int{}
 	var mu sync.Mutex
 	lintOnce := func(j job) {
-		l, err := ws.NewLinter()
+		l, err := ws.NewLinterAt(root)
 		var rep report.Report
 		if err == nil {
 			rep, err = l.WithInputPaths(variants[j.variant]).WithExportAggregates(true).Lint(ctx)
@@ -544,6 +705,28 @@ func main() {
 	for shape := 0; shape < nskew; shape++ {
 		ws := GenSkew(gen2, id, shape, nbig)
 		id++
+		if mine() {
+			out.Emit(runWorkspace(ctx, rng, ws, procs, tier, withOracle, false))
+		}
+	}
+	// third family (round 3; own generator again): trigger workspaces for every aggregate_report rule, and
+	// configuration shapes that are maps on the Go side (Rego versions per directory in several spellings)
+	gen3 := hutil.NewRng(hutil.SeedFromEnv() ^ 0x5eed3)
+	ntrig, nver := 2, 3
+	if tier != "quick" {
+		ntrig, nver = 6, 10
+	}
+	id3 := 200
+	for v := 0; v < ntrig; v++ {
+		ws := GenAggTrig(gen3, id3, v)
+		id3++
+		if mine() {
+			out.Emit(runWorkspace(ctx, rng, ws, procs, tier, withOracle, false))
+		}
+	}
+	for sh := 0; sh < nver; sh++ {
+		ws := GenVersions(gen3, id3, sh)
+		id3++
 		if mine() {
 			out.Emit(runWorkspace(ctx, rng, ws, procs, tier, withOracle, false))
 		}
